@@ -26,6 +26,23 @@ def check(ctx):
     for iscsd in (False, True):
         for nm in CROSS:
             check_cell(ctx, T, nm, iscsd, ref, "R1-definitions")
+    # the guards of the quotients must not depend on the scale of the records: coherence, the swap law and the single-segment identity are
+    # stated for every record, also one of amplitude 1e-9 (a guard  XX*YY > eps  forces such a record onto the degenerate branch)
+    from .c06 import _scale_dependent_guard
+    from ..symalg import conj_atom
+    scales = [{V("XX"): 2, V("XY"): 1, V("M2"): 2}, {V("YY"): 2, V("XY"): 1, V("M2"): 2}]
+    for sc in scales:
+        for k in list(sc):
+            if k.kind == "complex": sc[conj_atom(k)[0]] = sc[k]
+    for nm in CROSS:
+        c = f"{GETATTR}[{nm}|cross]"
+        try: bad = _scale_dependent_guard(T.cell(nm, True), scales)
+        except Unknown: bad = None
+        if bad is not None:
+            ctx.violated("R10-guards-scale-free", c, f"the guard [{bad.text}] compares a quantity that scales with the records against an absolute constant: for small-amplitude records the "
+                         "degenerate branch is taken, so dependent channels / single-segment bins do not give coherence 1 and GyySx != Gyy*(1-coh)", where)
+        else:
+            ctx.holds("R10-guards-scale-free", c, "every branch condition of the cell is invariant under x -> c*x, y -> c'*y", where)
     g = {nm: _gx(T, nm) for nm in ("coh", "Gxy", "Gyx", "Gxx", "Gyy", "GyyCx", "GyyRx", "GyySx", "ccoh")}
 
     def law(rule, name, lhs, rhs, detail=""):
